@@ -140,7 +140,7 @@ impl Property for C38 {
         ]
     }
     fn cases(&self, tier: Tier) -> u32 {
-        tier.pick(400, 20_000)
+        tier.pick(1200, 20_000)
     }
     fn shards(&self, _tier: Tier) -> usize {
         4
